@@ -35,6 +35,15 @@ def pairs(draw):
     force = [(p["name"], p["next"]) for p in a["phases"]]
     b = draw(methods(dict(BASE, force_phases=force)))
     pred = draw(st.sampled_from(["none", "nonpersistent", "nonpersistent", "keep_one"]))
+    # a phase that exists in one method only (must be taken over unchanged); nothing points to it
+    extra = draw(st.sampled_from(["none", "none", "a", "b", "both"]))
+    first = a["phases"][0]["name"]
+    if extra in ("a", "both"):
+        ea = draw(methods(dict(BASE, force_phases=[("only_a", first)])))
+        a = dict(a, phases=a["phases"] + ea["phases"])
+    if extra in ("b", "both"):
+        eb = draw(methods(dict(BASE, force_phases=[("only_b", first)])))
+        b = dict(b, phases=b["phases"] + eb["phases"])
     return {"a": a, "b": b, "pred": pred, "steps": draw(st.integers(1, 3))}
 
 
@@ -264,6 +273,14 @@ def check_case(case):
     if set(fused.phases) != set(dag_a.phases) | set(dag_b.phases) or fused.initial_phase != dag_a.initial_phase:
         return "fused method has phases %s / initial %s" % (sorted(fused.phases), fused.initial_phase), info
     for pname in sorted(fused.phases):
+        if pname not in dag_a.phases or pname not in dag_b.phases:
+            only = dag_a.phases.get(pname) or dag_b.phases.get(pname)
+            pf = fused.phases[pname]
+            if pf.next_phase != only.next_phase or [str(x) for x in pf.statements] != [str(x) for x in only.statements] \
+                    or [(x.id, x.depends_on) for x in pf.statements] != [(x.id, x.depends_on) for x in only.statements]:
+                return "phase %s exists in one method only but was changed by the fusion" % pname, info
+            info["one_sided_phase"] = True
+            continue
         pa, pb, pf = dag_a.phases[pname], dag_b.phases[pname], fused.phases[pname]
         sa, sb, sf = list(pa.statements), list(pb.statements), list(pf.statements)
         if pf.next_phase != pa.next_phase:
@@ -346,7 +363,7 @@ def check_case(case):
 
 def sig_of(msg):
     for key in ("raised", "was changed", "became", "dependencies of", "not injective", "was renamed to", "collides",
-                "fails where", "alone but", "duplicate", "fused statements for", "default successor", "cannot identify"):
+                "fails where", "alone but", "duplicate", "exists in one method only", "fused statements for", "default successor", "cannot identify"):
         if key in msg:
             if key == "was renamed to":
                 return key + (" persistent" if "persistent" in msg else " rejected")
@@ -390,6 +407,8 @@ def shard(ctx, n):
             classes.append("behaviour_compared")
         if info.get("shared_temps"):
             classes.append("shared_temporaries")
+        if info.get("one_sided_phase"):
+            classes.append("one_sided_phase")
         if "loop" in fa and "loop" in fb:
             classes.append("both_have_loops")
         if "if" in fa and "if" in fb:
